@@ -63,3 +63,18 @@ class Idle(Node):
         LOG.append(("enter", self.result_name))
         LOG.append(("exit", self.result_name))
         return (self.result_name, "idle")
+
+
+class Greedy(Node):
+    """a command that USES UP the list it is given while it executes (takes the items off one by one), as a command working through a queue of
+    inputs may: the arguments it is handed are its own to consume"""
+
+    inputs = dict(Node.inputs)
+    output = params.Parameter()
+
+    def execute(self, **kw):
+        out = Node.execute(self, **kw)
+        for slot in ("L", "N"):
+            if isinstance(kw.get(slot), list):
+                del kw[slot][:]
+        return out
